@@ -264,7 +264,7 @@ def section_max(S):
 
 for name, delta, ok in [("max", 0, True), ("max+8", 8, True), ("max-8", -8, False), ("max+4", 4, False), ("max+1", 1, False), ("max+7", 7, False), ("max+64", 64, True)]:
     inst("extent:" + name, "mode", ok, (lambda d: lambda S: set_mode("@extent %d" % (section_max(S) + d))(S))(delta))
-for e, ok in [("-8", False), ("64.5 * 8", False), ("1024 / 3", False), ("true", False), ("'a'", False), ("{1024}", False), ("2 ** 40", True), ("128 * 8", True), ("0", False)]:
+for e, ok in [("-8", False), ("64.5 * 8", False), ("1024 / 3", False), ("1024 + 1/2", False), ("2049 / 2", False), ("8193 / 8", False), ("1024.25", False), ("4096 / 2", True), ("1024.0", True), ("true", False), ("'a'", False), ("{1024}", False), ("2 ** 40", True), ("128 * 8", True), ("0", False)]:
     inst("extent-value:" + e, "mode", ok, set_mode("@extent " + e))
 inst("extent:zero-for-empty", "attrs", True, lambda S: (S["sections"][0].update(union=False, attrs=[]), set_mode("@extent 0")(S)))
 
